@@ -135,8 +135,12 @@ func (fr *frame) callWithArgs(st *state, c *ssa.CallCommon, instr ssa.Instructio
 		}
 	}
 	res := fr.callWithArgs1(st, c, instr, pos, args)
-	if fr.top && instr != nil && fr.fc.calledRefs[text] {
-		st.heap[calledKey(text)] = "true"
+	if fr.top && instr != nil {
+		for ref := range fr.fc.calledRefs {
+			if matchCall(ref, text) {
+				st.heap[calledKey(ref)] = "true"
+			}
+		}
 	}
 	if cls, ok := fr.fc.c.After[text]; ok && instr != nil {
 		if fr.fc.atHit == nil {
@@ -959,4 +963,26 @@ func isErrorConstructor(text string) bool {
 		}
 	}
 	return false
+}
+
+
+// matchCall: does the call with source text `text` fall under the key of a called("...") / never clause? A key that ends
+// in ")" is the whole call; any other key is a prefix of it ("os.Open(" - whatever the argument is called); a prefix key
+// that starts with "." matches the end of the callee expression (".Parse(" - whatever the receiver is called).
+func matchCall(ref, text string) bool {
+	if strings.HasSuffix(ref, ")") {
+		return ref == text
+	}
+	if strings.HasPrefix(ref, ".") {
+		i := strings.Index(text, "(")
+		if i < 0 {
+			return false
+		}
+		j := strings.Index(ref, "(")
+		if j < 0 {
+			return strings.HasSuffix(text[:i], ref)
+		}
+		return strings.HasSuffix(text[:i], ref[:j]) && strings.HasPrefix(text[i:], ref[j:])
+	}
+	return strings.HasPrefix(text, ref)
 }
